@@ -522,7 +522,8 @@ theorem receivedReset_eff {s s' : State} {id code fo : Nat} {r : Except TErr Boo
           · rcases hh with ⟨sz, c, hst, he⟩ | ⟨sz, hst, he⟩
             · simp at he
             · simp only [Except.ok.injEq, Prod.mk.injEq, true_and] at he
-              exact ⟨by simp [Recv.isReceiving, hst], h3, h4, he⟩
+              have hrc : rs.isReceiving = true := by simp [Recv.isReceiving, hst]
+              exact ⟨hrc, h3 hrc, h4 hrc, he⟩
         obtain ⟨hrecv, hfo, hcred, hrs'⟩ := hfacts
         have hbr : rs'.assembler.bytesRead = rs.assembler.bytesRead := by rw [hrs']; rfl
         have hend : rs'.end_ = rs.end_ := by rw [hrs']
